@@ -118,6 +118,8 @@ def _backward_closure(spec):
             for e in edges.get(p, []):
                 q = e[0]
                 if q in tmap and q not in back:
+                    if tmap[q].start is not None and not rules.explicit_backward(spec, q):
+                        continue  # an ASAP task with a fixed start keeps its mode and ends the propagation
                     back.add(q)
                     changed = True
     return back
@@ -136,6 +138,11 @@ def _mixed_modes_in_slot(v, case):
 @predicate("foreign_edge_inside_slot")
 def _foreign_edge_inside_slot(v, case):
     return bool(v.data.get("foreign_edge_inside"))
+
+
+@predicate("team_surplus_in_slot")
+def _team_surplus_in_slot(v, case):
+    return bool(v.data.get("team_surplus")) and v.kind.startswith("idle_part_of_slot")
 
 
 @predicate("later_scenario_other_horizon")
